@@ -95,7 +95,12 @@ func VerifC27Receive() {
 	zz.Assert(err == nil, "backend")
 	registered := ""
 	regCalls := 0
-	rcv, err := NewReceiver(ReceiverConfig{Backend: be, Logger: zerolog.Nop(),
+	c27Receipt.exists, c27Receipt.sha, c27Receipt.compacted = false, "", false
+	var idx *HubIndex
+	if zz.ParamInt("index", 0) == 1 {
+		idx = &HubIndex{} // one-row receipt model (run hub-receive-index)
+	}
+	rcv, err := NewReceiver(ReceiverConfig{Backend: be, Logger: zerolog.Nop(), Index: idx,
 		RegisterFile: func(ctx context.Context, f *ReceivedFile) error {
 			regCalls++
 			if zz.Bool("register_fails_" + string(rune('0'+regCalls))) {
@@ -150,6 +155,11 @@ func VerifC27Receive() {
 			case OutcomeChecksumMismatch:
 				zz.Reach("mismatch")
 			}
+		}
+		// a receipt makes reconcile answer "present", after which the spoke stops sending the
+		// file: it may exist only for content that was registered for readers
+		if c27Receipt.exists {
+			zz.Assert(registered == c27Receipt.sha, "the hub holds a receipt for content it never registered for readers (reconcile would report it present and the spoke would mark it synced)")
 		}
 		for _, p := range zz.FSList() {
 			inStaging := len(p) > len(root)+1+len(StagingPrefix) && p[len(root)+1:len(root)+1+len(StagingPrefix)] == StagingPrefix
